@@ -46,11 +46,10 @@ THEOREMS = [
     'C04_normalize_matrix_3_reproduces',
     'C04_normalize_matrix_3_cols_reproduces',
     'C04_normalize_matrix_5_reproduces',
-    'C04_matrix3_row_minus_ex_refuted',
     'C04_adjust_matrix_fixpoint', 'C04_to_cos_deg', 'C04_tr_card_3',
     'C04_tr_card_12', 'C04_tr_card_star_12', 'C04_m1_only', 'C04_inline_12',
     'C04_inline_number', 'C04_implicit_surface',
-    'C04_implicit_surface_value', 'C04_sq_under_transformation_refuted',
+    'C04_implicit_surface_value', 'C04_frame_transform_sq',
 ]
 TRUSTED = [
     'hand-written model coq/C04/Model.v (modelled, tied by execution only)',
@@ -87,10 +86,7 @@ EXC = {'TransformationError': 'ETransformation', 'TypeError': 'EType',
        'IndexError': 'EIndex', 'KeyError': 'EKey',
        'ZeroDivisionError': 'EZeroDiv'}
 
-KNOWN = {
-    'sq_under_transformation',
-    'matrix3_row_minus_ex',
-}
+KNOWN = set()
 
 
 # ---------------------------------------------------------------------------
@@ -324,21 +320,21 @@ def impl_trcard(card):
     return call(run)
 
 
-def is_row_minus_ex(card):
-    '''Class matrix3_row_minus_ex: exactly three matrix entries forming one
-    row (or column) equal to (-1, 0, 0).'''
-    vals = card['entries'][3:12]
-    vals = vals + [None] * (9 - len(vals))
-    given = [v for v in vals if v is not None]
-    if len(given) != 3 or card['star']:
-        return False
-    rows = [vals[0:3], vals[3:6], vals[6:9], vals[0::3], vals[1::3],
-            vals[2::3]]
-    return any(r == [-1.0, 0.0, 0.0] for r in rows)
-
-
 def oracle_trcard(card, out):
     '''Property-level check of one normalised card. None or a description.'''
+    if card['fault'] == 'row-ex':
+        # one vector equal to (-1, 0, 0): a legal spelling (repaired 9a17f3b)
+        if out[0] != 'ok':
+            return f'a TR card with the single vector (-1,0,0) was rejected ({out[1]})'
+        mat = np.array(out[1][3:]).reshape(3, 3)
+        if np.abs(mat @ mat.T - np.eye(3)).max() > 1e-9 \
+                or abs(np.linalg.det(mat) - 1) > 1e-9:
+            return 'completed matrix is not a proper rotation'
+        given = card['entries'][3:12]
+        for k, v in enumerate(given):
+            if v is not None and abs(mat.reshape(9)[k] - v) > 1e-9:
+                return f'supplied entry B{k + 1} not reproduced'
+        return None
     if card['fault'] is not None:
         if card['fault'] in ('m-1', 'm2') and out[0] == 'ok':
             return 'a transformation with m != 1 was accepted'
@@ -751,13 +747,9 @@ def abbreviate(rng, tr):
 
 
 def deck_classes(deck, moved):
-    '''Known-finding classes a failing deck of the sweep may belong to.'''
-    classes = set()
-    for s, _spec in moved:
-        # a pure translation (B None) moves an SQ just as well
-        if s['mn'] == 'sq':
-            classes.add('sq_under_transformation')
-    return classes
+    '''Known-finding classes a failing deck of the sweep may belong to: none
+    is open for C04 any more.'''
+    return set()
 
 
 def sq_as_gq(deck):
@@ -821,9 +813,6 @@ CORPUS = {
     'star_trcl_abbreviated':
         'abbreviated *TRCL\n1 0 -1 *trcl=(1 0 0 0 90 90 90 30 60) imp:n=1\n'
         '2 0 #1 imp:n=1\n\n1 c/x 1.5 0.5 1\n\n',
-}
-
-WITNESSES = {
     'sq_under_transformation':
         'SQ under TR witness\n1 0 -1 imp:n=1\n2 0 1 imp:n=1\n\n'
         '1 5 sq 0.2 1 3 -2 1.4 -1.7 -25 -3 2.2 -1.9\n\n'
@@ -833,7 +822,15 @@ WITNESSES = {
         '1 5 px 1\n\ntr5 0 0 0 -1 0 0\n',
 }
 
+WITNESSES = {}      # no open class
+
 WITNESS_DECKS = {
+    'matrix3_row_minus_ex': {   # PX only sees the supplied vector
+        'cells': [{'id': 1, 'mat': 0, 'expr': ('s', -1), 'imp': {'n': 1}},
+                  {'id': 2, 'mat': 0, 'expr': ('s', 1), 'imp': {'n': 1}}],
+        'surfaces': [{'id': 1, 'mn': 'px', 'params': [1.0], 'tr': 5}],
+        'transforms': {5: {'O': (0, 0, 0),
+                           'B': [-1, 0, 0, 0, -1, 0, 0, 0, 1]}}},
     'cone_sheet_axis_antialigned': {
         'cells': [{'id': 1, 'mat': 0, 'expr': ('s', -1), 'imp': {'n': 1}},
                   {'id': 2, 'mat': 0, 'expr': ('s', 1), 'imp': {'n': 1}}],
@@ -977,14 +974,8 @@ def tie_trcards(res, rng, n_valid, n_bad):
             continue
         why = oracle_trcard(card, out)
         if why:
-            cls = 'matrix3_row_minus_ex' if is_row_minus_ex(card) \
-                and out == ('err', 'EZeroDiv') else None
             res.violation('impl-violation', f'{text}: {why}', payload,
-                          cls=cls, found_input=True)
-        elif is_row_minus_ex(card) and out == ('err', 'EZeroDiv'):
-            res.violation('impl-violation', f'{text}: ZeroDivisionError',
-                          payload, cls='matrix3_row_minus_ex',
-                          found_input=True)
+                          cls=None, found_input=True)
         cases.append(cpair(cbool(card['star']),
                            clist(copt(v, cfloat) for v in card['entries']),
                            cres(out, cfl)))
@@ -1203,8 +1194,6 @@ def tie_surfaces(res, rng, n, pool):
             res.count('oracle:untransformed-surface-differs (C02/C03 domain)')
         if wrong:
             cls = None
-            if mn == 'sq' and tr:
-                cls = 'sq_under_transformation'
             res.violation(
                 'impl-violation',
                 f'{mn} {params} moved by {tr}: {wrong} of {checked} points '
@@ -1418,12 +1407,6 @@ def sweep_decks(res, rng, n):
             res.sample({'deck': text}, limit=3)
             continue
         cls = None
-        if status == 'mismatch' and 'sq_under_transformation' in classes:
-            # narrow: the same deck with every SQ card rewritten as the
-            # equivalent GQ card must convert correctly
-            st2, _d2, _t2 = check_deck(sq_as_gq(deck), rng, 120)
-            if st2 == 'ok':
-                cls = 'sq_under_transformation'
         res.violation('impl-violation',
                       f'deck ({mode}) {status}: {detail}',
                       {'input': {'deck': text}, 'mode': mode,
